@@ -187,8 +187,8 @@ def _failing_history(rnd):
     return fail + probes + small, ops
 
 
-def _alphabet(rnd):
-    k = rnd.random()
+def _alphabet(rnd, kind=None):
+    k = rnd.random() if kind is None else {"pyin": 0.0, "python": 0.3, "string": 0.6, "mixed": 0.9}[kind]
     atoms = []
     if k < 0.15:
         # the same comma list as operand of in / not in on different version-valued variables
@@ -409,7 +409,9 @@ def run(ctx):
     fresh = 6 if ctx.tier == "quick" else 8
     for h in range(n_hist):
         huge = (h == 1 and ctx.shard % 2 == 0) if ctx.tier == "quick" else (h % 10 == 1)
-        atoms = _huge_alphabet(rnd) if huge else _alphabet(rnd)
+        # every shard sees every kind of alphabet at least once (h = 2..5), the rest is drawn
+        kind = {2: "pyin", 3: "python", 4: "string", 5: "mixed"}.get(h)
+        atoms = _huge_alphabet(rnd) if huge else _alphabet(rnd, kind)
         # (every cold parse of the 1 000-value text costs seconds: short history, one permutation)
         if huge:
             # the big operand is combined with one small marker and then with a second one; the same two small
